@@ -198,15 +198,19 @@ theorem solo_range (maxDel thr : Nat) (m : SafeMap) :
   refine Exec.one _ _ _ _ ?_
   simp [obj, bodyRange, SafeMap.range]
 
+/-- the visible result of an operation is the sequential model's -/
+def resultOK (m : SafeMap) (op : Op) (res : Loc) : Prop :=
+  match op with
+  | .get k => res.res = m.get k
+  | .size => res.res = some m.size
+  | .range => res.acc = m.range
+  | _ => True
+
 /-- **a body run alone = the sequential model** (state and visible result) -/
 theorem solo_is_seq (maxDel thr : Nat) (op : Op) (m : SafeMap) (res : Loc) (post : SafeMap)
     (h : Solo (obj maxDel thr) op m res post) :
-    post = seqPost maxDel thr m op ∧
-    (match op with
-     | .get k => res.res = m.get k
-     | .size => res.res = some m.size
-     | .range => res.acc = m.range
-     | _ => True) := by
+    post = seqPost maxDel thr m op ∧ resultOK m op res := by
+  unfold resultOK
   cases op with
   | get k => obtain ⟨a, b⟩ := Solo.unique _ _ _ (solo_get maxDel thr k m) h; subst a; exact ⟨b, rfl⟩
   | size => obtain ⟨a, b⟩ := Solo.unique _ _ _ (solo_size maxDel thr m) h; subst a; exact ⟨b, rfl⟩
@@ -338,11 +342,15 @@ theorem solo_take (r : Ring) : Solo obj .take r { pc := 2, i := r.sz, out := r.t
   refine Exec.one _ _ _ _ ?_
   simp [obj, bodyTake, Ring.take, List.range_eq_range']
 
+def resultOK (r : Ring) (op : Op) (res : Loc) (post : Ring) : Prop :=
+  match op with
+  | .add v => post = r.add v
+  | .take => post = r ∧ res.out = r.take
+
 /-- **a body run alone = the sequential model** -/
 theorem solo_is_seq (op : Op) (r : Ring) (res : Loc) (post : Ring) (h : Solo obj op r res post) :
-    match op with
-    | .add v => post = r.add v
-    | .take => post = r ∧ res.out = r.take := by
+    resultOK r op res post := by
+  unfold resultOK
   cases op with
   | add v => exact (Solo.unique _ _ _ (solo_add v r) h).2
   | take =>
